@@ -2,6 +2,7 @@
 From Coq Require Import List NArith ZArith Bool Strings.Byte Strings.String.
 Import ListNotations.
 Require Import Params Iauth Mon01.
+Require Line Junk TimerFacts.
 Local Open Scope list_scope.
 
 (* after every prefix of every history the number of requests in the table equals the number of ids the C01 monitor holds live
@@ -12,3 +13,35 @@ Theorem in_use_is_live_count : forall c s0 evs1 evs2, reqs s0 = [] ->
             mon_run m (trace c (fold_left (fun s e => fst (step c s (fst e) (snd e))) evs1 s0) evs2) = true.
 Proof. exact live_count_prefix. Qed.
 Print Assumptions in_use_is_live_count.
+
+(* "a timer belonging to a finished request never fires": the timer is a field of the request in the table (armed s = ids with an
+   armed timer), so an id that is not in the table after a step has no armed timer after it, whatever the step was ... *)
+Theorem timers_exist_only_for_live_requests : forall c s e,
+  let s' := fst (step_ev c s e) in
+  incl (TimerFacts.armed s') (map cid (reqs s')) /\ (forall id, lookup id (reqs s') = None -> ~ In id (TimerFacts.armed s')).
+Proof. exact TimerFacts.timers_exist_only_for_live_requests. Qed.
+Print Assumptions timers_exist_only_for_live_requests.
+
+(* ... and should the expiry of a finished request's timer be delivered all the same, it changes nothing and prints nothing *)
+Theorem timeout_for_finished_request_is_noop : forall c s raw,
+  cmdchar (Junk.argv_of raw) = x21 -> lookup (Junk.id_of raw) (reqs s) = None -> Line.step_line c s raw = (s, []).
+Proof. exact TimerFacts.timeout_line_for_finished_request_is_noop. Qed.
+Print Assumptions timeout_for_finished_request_is_noop.
+
+(* a request's timer fires at most once: it does something only when armed; afterwards it is disarmed and later expiries are no-ops *)
+Theorem timer_fires_at_most_once : forall c s id argv r,
+  NoDupIds (reqs s) -> lookup id (reqs s) = Some r -> cmdchar argv = x21 ->
+  let s' := fst (step c s id argv) in
+  (timer r && TimerFacts.is_timeout argv = false -> step c s id argv = (s, [])) /\
+  (timer r && TimerFacts.is_timeout argv = true ->
+     (forall r', lookup id (reqs s') = Some r' -> timer r' = false /\ f_tout r' = true) /\
+     (forall argv2, cmdchar argv2 = x21 -> step c s' id argv2 = (s', []))).
+Proof. exact TimerFacts.timer_fires_at_most_once. Qed.
+Print Assumptions timer_fires_at_most_once.
+
+(* no event other than a new announcement arms a timer *)
+Theorem only_an_announcement_arms_a_timer : forall c s e,
+  NoDupIds (reqs s) -> match e with Ev _ argv => beq (cmdchar argv) x43 = false | Reload _ _ _ => True end ->
+  incl (TimerFacts.armed (fst (step_ev c s e))) (TimerFacts.armed s).
+Proof. exact TimerFacts.armed_shrinks. Qed.
+Print Assumptions only_an_announcement_arms_a_timer.
